@@ -64,8 +64,8 @@ theorem clone_leaves_buffer (w : World) (x : Id) (h : BufOk w) : x ∉ (w.cloneO
   exact (removeFromList_bufOk _ x h').2.1
 
 /-- `allocated_bytes`: allocation adds the size of the box, release subtracts it. -/
-theorem bytes_alloc (c : Cfg) (w : World) (k : Nat) (id : Id) (sp : NewSpec) :
-    (stepFrame c w (.newAlloc k id sp)).allocBytes = w.allocBytes + c.nodeSize := by
+theorem bytes_alloc (c : Cfg) (w : World) (k : Nat) (sp : NewSpec) :
+    (stepFrame c w (.newAlloc k sp)).allocBytes = w.allocBytes + c.nodeSize := by
   simp only [stepFrame, putH]
   split <;> simp [setH, emit, push, newObj]
 
